@@ -73,7 +73,15 @@ def NestedCallError(msg):
     return e
 
 
-EXC = {"Unprintable": Unprintable, "NestedCallError": NestedCallError, "FalsyFailure": FalsyFailure, "EmptyGroup": EmptyGroup, "Failure": Failure, "BaseFailure": BaseFailure, "ValueError": ValueError, "KeyboardInterrupt": KeyboardInterrupt,
+def CyclicCause(msg):
+    """an exception whose `__cause__` chain is a CYCLE (`raise primary from fallback` where `fallback` was itself raised from
+    `primary`): following the chain to its end never ends"""
+    primary, fallback = ValueError("primary: " + msg), OSError("fallback: " + msg)
+    primary.__cause__, fallback.__cause__ = fallback, primary
+    return primary
+
+
+EXC = {"CyclicCause": CyclicCause, "Unprintable": Unprintable, "NestedCallError": NestedCallError, "FalsyFailure": FalsyFailure, "EmptyGroup": EmptyGroup, "Failure": Failure, "BaseFailure": BaseFailure, "ValueError": ValueError, "KeyboardInterrupt": KeyboardInterrupt,
        "SystemExit": SystemExit}
 
 
